@@ -92,7 +92,11 @@ getStartIndex(
                     1),
                 theResult));
 
-        return XalanDOMString::size_type(theResult);
+        // A start position beyond the end of the string must not
+        // be converted, since the conversion can overflow.
+        return theResult >= theStringLength ?
+                    theStringLength :
+                    XalanDOMString::size_type(theResult);
     }
 }
 
@@ -177,10 +181,12 @@ getSubstringLength(
             }
             else
             {
-                const size_type     theSubstringLength =
-                    size_type(theTotal) - theXPathStartIndex;
+                // Compare before converting, since the conversion
+                // of a large value can overflow.
+                const double    theSubstringLength =
+                    theTotal - theXPathStartIndex;
 
-                return theSubstringLength > theMaxLength ? theMaxLength : theSubstringLength;
+                return theSubstringLength > theMaxLength ? theMaxLength : size_type(theSubstringLength);
             }
         }
     }
